@@ -12,7 +12,7 @@ for d in sorted(glob.glob(os.path.join(ROOT, "seeded", "*"))):
     det = sorted(set(m.get("detected_by_quick", [])) | set(m.get("detected_by_thorough", [])))
     only_thorough = sorted(set(m.get("detected_by_thorough", [])) - set(m.get("detected_by_quick", [])))
     inc = sorted(set(m.get("inconclusive_quick", [])) - set(det))
-    target = m.get("property", sid.split("-")[0])
+    target = m.get("property") or sid.split("-")[0]
     hit = "yes" if target in det else ("other checks only" if det else "NO")
     rows.append((sid, m.get("summary", "")[:110], "yes" if m.get("confirmed") else "no", ", ".join(det) + (f" (thorough only: {', '.join(only_thorough)})" if only_thorough else ""),
                  ", ".join(inc), hit))
